@@ -11,11 +11,11 @@ echo "== confirm in scratch worktree ($demo)"
 (cd $W && git checkout -q -- . && go test -vet=off -count=1 -run 'TestDemo' ./$pkg/ >/tmp/seed-$ID-without.log 2>&1; echo "without change: rc=$?")
 (cd $W && git apply /tmp/mut-$ID.patch && go build ./... && go test -vet=off -count=1 -run 'TestDemo' ./$pkg/ >/tmp/seed-$ID-with.log 2>&1; echo "with change: rc=$?")
 (cd $W && mv $demo /tmp/seed-demo-$ID.go && go test -vet=off -count=1 ./protocol/... ./server/... >/tmp/seed-$ID-suite.log 2>&1; echo "existing suite with change: rc=$?"; mv /tmp/seed-demo-$ID.go $demo)
-echo "== our checks against it"
-git -C /repo status --short | grep -v '^??' && { echo "/repo not clean"; exit 1; }
-git -C /repo apply /tmp/mut-$ID.patch || exit 1
+echo "== our checks against it (VERIF_REPO=$W: the scratch worktree with the change applied; /repo itself is not touched)"
+mv $demo /tmp/seed-demo-$ID.go
 for P in "$@"; do
-  (cd /verif && ./check $P quick 2>/dev/null | grep -E "^(VIOLATION|OK|KNOWN)" | cut -c1-300 | head -4; echo "  -> $P rc=${PIPESTATUS[0]}")
+  (cd /verif && VERIF_REPO=$W ./check $P quick 2>/dev/null | grep -E "^(VIOLATION|OK|KNOWN)" | cut -c1-300 | head -6; echo "  -> $P rc=${PIPESTATUS[0]}")
 done
-git -C /repo checkout -- .
-git -C /repo status --short | grep -v '^??'
+mv /tmp/seed-demo-$ID.go $demo
+# regenerate the Gen files from the real /repo again
+(cd /verif && ./build/extract /repo lean build/facts.json >/dev/null 2>&1)
